@@ -221,7 +221,14 @@ def run_history(ctx, seed):
                 c = net.conns[cid]
                 info['replaced_conns_checked'] = info.get('replaced_conns_checked', 0) + 1
                 if not c.is_closed and not c._requests:
-                    dup = pw.duplicate_replacements(pool)
+                    extra = c.in_flight - len(c.orphaned_request_ids)
+                    if pw.free_and_orphaned.get(cid) and 0 < extra <= len(pw.free_and_orphaned[cid]) + info.get('edge', 0):
+                        # in_flight carries units no orphan and no handler stands for, and a stream of this connection was seen free AND orphaned
+                        viol.append(('timeout-racing-response-leaves-stream-free-and-orphaned', 'conn %d was replaced and nothing awaits an answer on it, but in_flight=%d '
+                                     'with %d orphans: stream(s) %s were returned to the free list by process_msg (answer found no handler) and then recorded as '
+                                     'orphaned by _on_timeout; the id was reused, so one orphan entry stands for two in_flight units and the trash never drains' % (
+                                         cid, c.in_flight, len(c.orphaned_request_ids), sorted(pw.free_and_orphaned[cid]))))
+                        continue
                     viol.append(('replaced-connection-not-closed-when-only-orphans-remain', 'conn %d was replaced, no non-orphaned request awaits an answer on it '
                                  '(in_flight %d, %d orphans, in trash: %s) but it is still open at quiescence' % (
                                      cid, c.in_flight, len(c.orphaned_request_ids), c in pool._trash)))
